@@ -398,7 +398,7 @@ class NetRun:
         world = self.world
         if self.broker is not None:
             topic, payload, qos, _seen = self.mqtt_map(text)
-            ok = self.broker.deliver(topic, payload, qos)
+            ok = self.broker.deliver(topic, payload, qos, force=bool(self.cfg.get("mqtt_force")))
             world.settle()
             return ok, None
         ok = world.feed(text.encode("utf-8", "surrogateescape") + ending.encode())
